@@ -4,7 +4,7 @@
 //
 // This file is injected into package stun through a build overlay; it is
 // never written into /repo.
-package stun
+package hmac
 
 import (
 	chmac "crypto/hmac"
